@@ -6,6 +6,7 @@ mkdir -p $W; cd $W; rm -f *.tla
 cp /verif/spec/*.tla . ; python3 /verif/tools/gen.py $S $T .
 N=$(python3 -c "import json;print(len(json.load(open('cases.json'))['cases']))")
 sed "s/CaseHi = 1/CaseHi = $N/" /verif/spec/MC_Seq.cfg > MC_Seq.cfg
+export JAVA_TOOL_OPTIONS="-Xss1g -XX:+UseParallelGC"
 ( time timeout 1800 tlc -workers 12 -metadir states -cleanup -noGenerateSpecTE -config MC_Seq.cfg MC_Seq.tla > tlc.out 2>&1 ) 2>&1 | grep real
 grep -E 'states generated|Finished|rror|violated' tlc.out | tail -4
 (cd /verif/harness && cargo build --offline --bins 2>&1 | grep -E "^error" -A8 || true)
